@@ -28,6 +28,8 @@ func propC04(c *Ctx) {
 	// a check that is skipped for "the same body again" must know what "the same" is
 	c.rulePositionNeedsFile("C04-POSITION-NEEDS-FILE")
 	c.ruleMemoCoverage("C04-MEMO-KEY-COVERS")
+	// a check that walks a list must look at every element of it
+	c.ruleLoopsCoverAll("C04-LOOPS-COVER-ALL")
 }
 
 func (c *Ctx) ruleAccessorPair() {
